@@ -394,7 +394,7 @@ def main():
                     "note": "Kani counterexample (concrete playback), evaluated against the real altrios-core functions by build/replay_* (same oracle text as the harness)",
                 }, open(rp, "w"), indent=1)
                 tail = "" if rep.get("confirmed_on_real_code") else " no-failing-input-found"
-                lines.append("VIOLATION property=%s replay=%s obligation=%s%s" % (pid, rp, f["obligation"].replace(" ", "_"), tail))
+                lines.append("VIOLATION property=%s replay=%s obligation=%s group=%s%s" % (pid, rp, f["obligation"].replace(" ", "_"), f.get("group", "kani"), tail))
                 continue
             json.dump({
                 "property": pid,
@@ -406,7 +406,7 @@ def main():
                 "failing_input": None,
                 "note": "Verus yields no counterexample model; the obligation named here was discharged on the unchanged tree and is refuted/undischarged on this tree. no-failing-input-found",
             }, open(rp, "w"), indent=1)
-            lines.append("VIOLATION property=%s replay=%s obligation=%s no-failing-input-found" % (pid, rp, f["obligation"].replace(" ", "_")))
+            lines.append("VIOLATION property=%s replay=%s obligation=%s group=%s no-failing-input-found" % (pid, rp, f["obligation"].replace(" ", "_"), f.get("group", "?")))
         for u in undecided:
             lines.append("UNDECIDED property=%s reason=%s" % (pid, u))
     wall = time.time() - t0
